@@ -46,10 +46,19 @@ def main():
         print("demo: unchanged rc=%d, with change rc=%d" % (a.returncode, b.returncode))
         if a.returncode != 0:
             print(a.stderr[-800:])
-        s = subprocess.run([sys.executable, "-m", "pytest", "-q", "-p", "no:cacheprovider", "tests", "--deselect",
-                            "tests/test_ridge.py::RidgeRegressionTest::test_predict_ridge_scaler"],
-                           capture_output=True, text=True, env=ENV, cwd=tree)
-        tail = s.stdout.strip().splitlines()[-1] if s.stdout.strip() else "?"
+        # the pickle tests of tests/test_mab.py share one file name in the cwd: run them serially, the rest under xdist
+        desel = ["--deselect", "tests/test_ridge.py::RidgeRegressionTest::test_predict_ridge_scaler"]
+        s1 = subprocess.run([sys.executable, "-m", "pytest", "-q", "-p", "no:cacheprovider", "-n", "8", "tests", "-k",
+                             "not pickle"] + desel, capture_output=True, text=True, env=ENV, cwd=tree)
+        s2 = subprocess.run([sys.executable, "-m", "pytest", "-q", "-p", "no:cacheprovider", "tests", "-k", "pickle"] + desel,
+                            capture_output=True, text=True, env=ENV, cwd=tree)
+        t1 = s1.stdout.strip().splitlines()[-1] if s1.stdout.strip() else "?"
+        t2 = s2.stdout.strip().splitlines()[-1] if s2.stdout.strip() else "?"
+        tail = "xdist part: %s | serial pickle part: %s" % (t1, t2)
+        import re
+        n_pass = sum(int(m) for m in re.findall(r"(\d+) passed", tail))
+        meta["suite_passed_total"] = n_pass
+        meta["suite_ok"] = (n_pass == 584 and "failed" not in tail and "error" not in tail)
         meta["suite_with_change"] = tail
         print("suite with change:", tail)
     finally:
